@@ -512,18 +512,42 @@ pub fn spaces_c03(tier: Tier) -> Vec<Space> {
         let tx = base_tx(*n_in, *n_out, seqs, false);
         let flag = sh::FORKID_FLAGS[c[1] as usize];
         let sub = p2pkh(0x44);
-        let value = 0x1122334455667788u64;
-        let keyhex = KEYS[c[2] as usize];
+        eval_sign(acc, case, &tx, *idx, &sub, 0x1122334455667788u64, flag, KEYS[c[2] as usize], false);
+    }));
+    // the signing entry points must sign the preimage of the subscript AS GIVEN (the FORKID digest keeps every
+    // OP_CODESEPARATOR): every separator-bearing subscript x flag x two keys x {sign, sign_with_k}
+    {
+        let subs = std::sync::Arc::new(codesep_subscripts());
+        let ns = subs.len() as u64;
+        v.push(Space::new("sign-subscripts", ns * 6 * 2 * 2, move |case, acc| {
+            let c = coords(case.idx, &[ns, 6, 2, 2]);
+            let tx = base_tx(2, 2, &[7, 0xfffffffe], false);
+            let (_d, sub) = &subs[c[0] as usize];
+            eval_sign(acc, case, &tx, 1, sub, 3, sh::FORKID_FLAGS[c[1] as usize], KEYS[(c[2] * 3) as usize], c[3] == 1);
+        }));
+    }
+    v
+}
+
+#[allow(clippy::too_many_arguments)]
+fn eval_sign(acc: &mut Acc, case: &Case, tx: &RTx, idx: usize, sub: &[u8], value: u64, flag: u32, keyhex: &str, with_k: bool) {
+    let idx = &idx;
         acc.evaluations += 1;
         acc.transitions += 3;
-        let want = sh::forkid_preimage(&tx, *idx, &sub, value, flag);
+        let want = sh::forkid_preimage(tx, *idx, sub, value, flag);
         let txb = tx.encode();
-        let input = json!({"tx_hex": hx(&txb), "input_index": idx, "flag": format!("0x{:02x}", flag), "key": keyhex});
+        let input = json!({"tx_hex": hx(&txb), "input_index": idx, "flag": format!("0x{:02x}", flag), "key": keyhex, "subscript": hx(sub), "entry": if with_k { "sign_with_k" } else { "sign" }});
         let lib = guard(|| {
             let mut t = Transaction::from_bytes(&txb).map_err(|e| e.to_string())?;
-            let script = Script::from_bytes(&sub).map_err(|e| e.to_string())?;
+            let script = Script::from_bytes(sub).map_err(|e| e.to_string())?;
             let pk = PrivateKey::from_hex(keyhex).map_err(|e| e.to_string())?;
-            let sig = t.sign(&pk, flag_to_sighash(flag).unwrap(), *idx, &script, value).map_err(|e| e.to_string())?;
+            let sig = if with_k {
+                // caller-supplied nonce: any valid nonce gives a valid signature
+                let k = PrivateKey::from_hex("00000000000000000000000000000000000000000000000000000000000a11ce").map_err(|e| e.to_string())?;
+                t.sign_with_k(&pk, &k, flag_to_sighash(flag).unwrap(), *idx, &script, value).map_err(|e| e.to_string())?
+            } else {
+                t.sign(&pk, flag_to_sighash(flag).unwrap(), *idx, &script, value).map_err(|e| e.to_string())?
+            };
             let bytes = sig.to_bytes().map_err(|e| e.to_string())?;
             // verify and its digest-level twin _verify (plain byte order) must both accept the library's own signature
             let ok = t.verify(&PublicKey::from_private_key(&pk), &sig) && t._verify(&PublicKey::from_private_key(&pk), &sig, false);
@@ -567,8 +591,6 @@ pub fn spaces_c03(tier: Tier) -> Vec<Space> {
             }
             (Ok(Ok(_)), Pre::NoSuchInput) => {}
         }
-    }));
-    v
 }
 
 const HIST_MUTATIONS: [&str; 14] = [
